@@ -101,6 +101,11 @@ theorem walk_stop_short (size fuel off n : Nat) (tail : Bytes) (hn : n < 2^63)
     simp only []
     rw [if_neg (by omega), if_pos h]
 
+theorem length_le_encRecs (rs : List Bytes) : rs.length ≤ (encRecs rs).length := by
+  induction rs with
+  | nil => simp
+  | cons r rs ih => simp only [encRecs_cons, encRec_length, List.length_append, List.length_cons]; omega
+
 /-- `repair` of a file made of complete records followed by a tail the walk
     stops at: the records are kept, the tail is replaced by a zero footer. -/
 theorem repairFile_recs (rs : List Bytes) (tail : Bytes)
@@ -112,10 +117,7 @@ theorem repairFile_recs (rs : List Bytes) (tail : Bytes)
     rcases htail with h | ⟨n, t, rfl, _, _⟩
     · omega
     · simp [be64_length]
-  have hrl : rs.length ≤ (encRecs rs).length := by
-    induction rs with
-    | nil => simp
-    | cons r rs ih => simp only [encRecs_cons, encRec_length, List.length_append, List.length_cons]; omega
+  have hrl := length_le_encRecs rs
   unfold repairFile
   rw [walk_recs _ rs _ 0 tail (by omega) (by omega) (by omega)]
   have hfuel : (encRecs rs ++ tail).length + 1 - rs.length = ((encRecs rs ++ tail).length - rs.length) + 1 := by
